@@ -46,25 +46,39 @@ func opGroup(op string) string {
 		return "wrong-type-field"
 	case cbormut.OpTruncate, cbormut.OpExtend:
 		return "array-length"
+	case cbormut.OpBitFlip, cbormut.OpReplace, cbormut.OpSwap, cbormut.OpIntStep, cbormut.OpZero:
+		return "altered-value"
+	case "hostile:selfdescribed-null":
+		return "selfdescribed-null"
+	case "hostile:empty-map", "hostile:tag-2^64-1":
+		return "missing-field"
 	}
-	return "altered-value"
+	if op == "selfdescribed-null" || op == "selfdescribed-wrap" || op == "missing-field" || op == "null-field" || op == "wrong-type-field" || op == "array-length" || op == "altered-value" {
+		return op // already a group name
+	}
+	return op
 }
 
 func findingID(op, kind string) string {
-	k := kind
-	switch kind {
-	case "panic":
-		k = "panic"
-	case "invalid":
-		k = "invalid-object"
-	case "reencode", "idempotence":
-		k = "not-reencodable"
-	}
-	return "C12-" + opGroup(op) + "-" + k
+	return "C12-" + opGroup(op) + "-" + pinKind(kind)
 }
 
+// pinString is the key of a pinned deviation: type, operator GROUP and failure kind. The field class
+// is deliberately not part of the key: the nil-dereference family of this package's findings
+// affects every field of the types concerned (several hundred placements), and the repair is per
+// decoder, not per field.
 func pinString(e *entry, op, class, kind string) string {
-	return e.pinKey() + "|" + op + "|" + class + "|" + kind
+	return e.pinKey() + "|" + opGroup(op) + "|" + pinKind(kind)
+}
+
+func pinKind(kind string) string {
+	switch kind {
+	case "reencode", "idempotence":
+		return "not-reencodable"
+	case "invalid":
+		return "invalid-object"
+	}
+	return kind
 }
 
 var (
@@ -111,7 +125,7 @@ func tolerated(e *entry, op, class, kind string, input []byte) bool {
 		obsMu.Lock()
 		if _, dup := collected[key]; !dup {
 			collected[key] = hx(input)
-			fmt.Printf("PIN %q, // %s\n", key, vlib.Hex(input))
+			fmt.Printf("PIN %q, // %s@%s %s\n", key, op, class, vlib.Hex(input))
 		}
 		obsMu.Unlock()
 		return true
@@ -150,14 +164,9 @@ func toleratedRaw(e *entry, kind string, input []byte) bool {
 			has["wrong-type-field"] = true
 		}
 	}
-	prefix := e.pinKey() + "|"
-	for _, k := range pinned {
-		if !strings.HasPrefix(k, prefix) || !strings.HasSuffix(k, "|"+kind) {
-			continue
-		}
-		parts := strings.Split(k, "|")
-		if len(parts) == 4 && has[opGroup(parts[1])] {
-			vlib.Excluded(findingID(parts[1], kind))
+	for g := range has {
+		if isPinned(e.pinKey() + "|" + g + "|" + pinKind(kind)) {
+			vlib.Excluded("C12-" + g + "-" + pinKind(kind))
 			return true
 		}
 	}
@@ -189,4 +198,94 @@ func reportKnown() {
 		}
 		vlib.Known(id, len(ex) > 0, what)
 	}
+}
+
+// ---- C12-hierarchical-party-order-unstable ---------------------------------------------------------
+//
+// NewHierarchicalConjunctiveThresholdAccessStructure stores the parties of a level in the iteration
+// order of a hash set, and the encoding writes them as an array in that order. Decoding a valid
+// encoding and encoding the result again therefore permutes the parties of a level at random: the
+// wire format of this type is not canonical (Unmarshal(Marshal(v)) does not re-marshal to the same
+// bytes). While the deviation is present, encodings of this type are compared modulo the order of
+// the "parties" arrays.
+
+const knownHierOrder = "C12-hierarchical-party-order-unstable"
+
+var (
+	hierOnce    sync.Once
+	hierPresent bool
+	hierWhat    string
+)
+
+func observeHierOrder() (bool, string) {
+	hierOnce.Do(func() {
+		e := byName["*hierarchical.HierarchicalConjunctiveThreshold"]
+		if e == nil {
+			hierWhat = "type not in the registry"
+			return
+		}
+		ac, err := hierarchicalSample()
+		if err != nil {
+			hierWhat = "cannot build the sample: " + err.Error()
+			return
+		}
+		first, err := e.encode(ac)
+		if err != nil {
+			hierWhat = "cannot encode the sample: " + err.Error()
+			return
+		}
+		for i := 0; i < 12; i++ {
+			v, err := e.decode(first)
+			if err != nil {
+				hierWhat = "valid encoding refused: " + err.Error()
+				return
+			}
+			again, err := e.encode(v)
+			if err != nil {
+				hierWhat = "cannot re-encode: " + err.Error()
+				return
+			}
+			if string(again) != string(first) {
+				hierPresent = true
+				hierWhat = fmt.Sprintf("hierarchical structure {1 of {11..18}}: encoding %s decodes and re-encodes to %s (parties of the level permuted; try %d)", hx(first), hx(again), i+1)
+				return
+			}
+		}
+		hierWhat = "12 decode / re-encode cycles of a level with 8 parties reproduced the encoding"
+	})
+	return hierPresent, hierWhat
+}
+
+// canonParties sorts every array found under a map key "parties".
+func canonParties(b []byte) []byte {
+	root, err := cbormut.Parse(b)
+	if err != nil {
+		return b
+	}
+	for _, p := range positions(root) {
+		n := p.node
+		if n.Major == 4 && strings.HasSuffix(p.path, "/parties") {
+			sort.SliceStable(n.Items, func(i, j int) bool { return string(n.Items[i].Encode()) < string(n.Items[j].Encode()) })
+		}
+	}
+	return root.Encode()
+}
+
+// sameEncoding is byte equality, modulo the catalogued party-order instability of hierarchical
+// access structures while it is present.
+func sameEncoding(e *entry, x, y []byte) bool {
+	if string(x) == string(y) {
+		return true
+	}
+	if e.pinKey() != "hierarchical.HierarchicalConjunctiveThreshold" {
+		return false
+	}
+	if present, _ := observeHierOrder(); !present || os.Getenv("VERIF_C12_NOEXCLUDE") != "" {
+		return false
+	}
+	if string(canonParties(x)) == string(canonParties(y)) {
+		vlib.Excluded(knownHierOrder)
+		return true
+	}
+	return false
 }
